@@ -1,6 +1,6 @@
 (* C07/Bounded.v — finite-domain supplement, by vm_compute: for the REAL heuristic (not an exact
-   nearest-target algorithm), on every grid up to 3x3 with unit cells, for EVERY target layout, EVERY
-   chunking of rows and columns and max_distance in {1, 3/2, 2}: the chunked result (distance key and
+   nearest-target algorithm), on every grid up to 3x3 with unit cells (max_distance 1; also 3/2 and 2 on the
+   grids with at most 6 cells), for EVERY target layout and EVERY chunking of rows and columns: the chunked result (distance key and
    remembered target of every cell) equals the whole-raster result. *)
 Require Import Base.Prelude Base.XVal C07.Generated_C06Model C07.Generated C07.Model.
 From Coq Require Import QArith.
@@ -71,26 +71,40 @@ Definition chunked_eq_whole_at (s : nat * nat) (m : Q * (ext * ext)) (img : list
 
 Definition shape_layouts (s : nat * nat) : list (list (list xv)) := layouts (fst s) (snd s).
 
+(* the checked domain: every shape up to 3x3 with max_distance = 1 (halo 1: with 1-cell chunks the extended
+   block is strictly smaller than the raster), and max_distance in {3/2, 2} (halo 2) on the shapes with at
+   most 6 cells *)
+Definition small_domain : list ((nat * nat) * (Q * (ext * ext))) :=
+  flat_map (fun s => map (fun m => (s, m))
+                         (if (fst s * snd s <=? 6)%nat then small_md else firstn 1 small_md))
+           small_shapes.
+
+Definition chunked_eq_whole_dom (p : (nat * nat) * (Q * (ext * ext))) (img : list (list xv)) : bool :=
+  chunked_eq_whole_at (fst p) (snd p) img.
+Definition dom_layouts (p : (nat * nat) * (Q * (ext * ext))) : list (list (list xv)) := shape_layouts (fst p).
+
 Lemma all_chunked_eq_whole :
-  forallb (fun s => forallb (fun m => forallb (chunked_eq_whole_at s m) (shape_layouts s)) small_md) small_shapes = true.
+  forallb (fun p => forallb (chunked_eq_whole_dom p) (dom_layouts p)) small_domain = true.
 Proof. vm_cast_no_check (eq_refl true). Qed.
 
-Lemma forallb3 {A B C} (f : A -> B -> C -> bool) (la : list A) (lb : list B) (lc : A -> list C) :
-  forallb (fun a => forallb (fun b => forallb (f a b) (lc a)) lb) la = true ->
-  forall a b c, In a la -> In b lb -> In c (lc a) -> f a b c = true.
+Lemma forallb2 {A C} (f : A -> C -> bool) (la : list A) (lc : A -> list C) :
+  forallb (fun a => forallb (f a) (lc a)) la = true ->
+  forall a c, In a la -> In c (lc a) -> f a c = true.
 Proof.
-  intros H a b c Ha Hb Hc.
+  intros H a c Ha Hc.
   apply (proj1 (forallb_forall _ _)) with (x := a) in H; auto.
-  apply (proj1 (forallb_forall _ _)) with (x := b) in H; auto.
   apply (proj1 (forallb_forall _ _)) with (x := c) in H; auto.
 Qed.
 
-Lemma chunked_eq_whole_small : forall s m img,
-  In s small_shapes -> In m small_md -> In img (shape_layouts s) -> chunked_eq_whole_at s m img = true.
+Lemma chunked_eq_whole_small : forall p img,
+  In p small_domain -> In img (dom_layouts p) -> chunked_eq_whole_dom p img = true.
 Proof.
-  apply (forallb3 chunked_eq_whole_at small_shapes small_md shape_layouts).
+  apply (forallb2 chunked_eq_whole_dom small_domain dom_layouts).
   exact all_chunked_eq_whole.
 Qed.
+
+Example small_domain_size : length small_domain = 25%nat.
+Proof. reflexivity. Qed.
 
 (* sanity of the enumeration and of the halo on this domain *)
 Example compositions_3 : compositions 3 = [[1; 1; 1]; [1; 2]; [2; 1]; [3]].
